@@ -192,6 +192,7 @@ type codecResult struct {
 	lenMain  *Lin
 	zero     []string
 	fields   []field
+	idCond   string  // when two constants: idConst[1] is emitted when this receiver condition holds
 	idConst  []int64 // extension id constants written at [0,2)
 	idData   string  // or a receiver field
 	issues   []string
@@ -323,6 +324,9 @@ func checkEncoder(c *Ctx, rule string, e *extImpl) *codecResult {
 		var a, b int64
 		fmt.Sscanf(idF.data, "choice[%d %d]", &a, &b)
 		res.idConst = []int64{a, b}
+		if i := strings.Index(idF.data, " if "); i >= 0 {
+			res.idCond = idF.data[i+4:]
+		}
 		r.Ok(rule, cons+":id", c.P.Pos(idF.first.pos), "extension type is one of the constants %d, %d", a, b)
 	} else {
 		res.idData = idF.valueString()
@@ -339,6 +343,27 @@ func checkEncoder(c *Ctx, rule string, e *extImpl) *codecResult {
 	default:
 		r.Check(outer.lin.Eq(want), rule, cons+":outer-length", c.P.Pos(outer.first.pos), fmt.Sprintf("b[2:4] = %s = Len()-4", outer.lin),
 			fmt.Sprintf("b[2:4] = %s but Len()-4 = %s: the extension_data length does not match the body", outer.lin, want))
+	}
+	// (3b) a refusal of over-long lists must really bound the one-byte prefix it protects
+	for _, f := range fs {
+		if f.copy || f.lin == nil || f.lin.IsConst() || !f.w.IsConst() || f.w.C != 1 || f.loop != "" {
+			continue
+		}
+		for _, b := range rs.bounds {
+			shares := false
+			for _, a := range b.lin.Atoms() {
+				if _, ok := f.lin.T[a]; ok {
+					shares = true
+				}
+			}
+			if !shares {
+				continue
+			}
+			okB := b.lin.Sub(*f.lin).NonNeg() && b.max <= 255
+			r.Check(okB, rule, fmt.Sprintf("%s:byte-prefix-bound@%s", cons, f.off), c.P.Pos(b.pos),
+				fmt.Sprintf("the encoder refuses %s > %d, which bounds the one-byte prefix value %s", b.lin, b.max, f.lin),
+				fmt.Sprintf("the one-byte length prefix at offset %s holds %s, but the encoder only refuses %s > %d: larger lists are emitted with a wrapped prefix instead of an error", f.off, f.lin, b.lin, b.max))
+		}
 	}
 	// (4) coverage walk and bounds
 	checkCoverage(c, rule, e, L, fs)
